@@ -236,22 +236,22 @@ func rulesC05(c *Ctx) {
 		}
 		c.Check(okDef, "Notify:deferred-decrement", nf, nil, "a deferred closure registered before the increment decrements outgoingNotifications exactly when the flag was set (all exits, including panics in the writer)")
 		{
-		nInc, nDec := 0, 0
-		for _, f := range c.funcsWithLits(pJ) {
-			for _, w := range f.FieldWrites(f.Body, outN, false) {
-				if id, ok := w.(*ast.IncDecStmt); ok {
-					if id.Tok == token.INC {
-						nInc++
+			nInc, nDec := 0, 0
+			for _, f := range c.funcsWithLits(pJ) {
+				for _, w := range f.FieldWrites(f.Body, outN, false) {
+					if id, ok := w.(*ast.IncDecStmt); ok {
+						if id.Tok == token.INC {
+							nInc++
+						} else {
+							nDec++
+						}
+						c.Check(f.Root().Obj == nf.Obj, "outgoingNotifications-writer:"+f.Name(), f, w, "outgoingNotifications is only written by Notify")
 					} else {
-						nDec++
+						c.Fail("outgoingNotifications-writer:"+f.Name(), f, w, "unexpected write")
 					}
-					c.Check(f.Root().Obj == nf.Obj, "outgoingNotifications-writer:"+f.Name(), f, w, "outgoingNotifications is only written by Notify")
-				} else {
-					c.Fail("outgoingNotifications-writer:"+f.Name(), f, w, "unexpected write")
 				}
 			}
-		}
-		c.Check(nInc == 1 && nDec == 1, "outgoingNotifications:one-inc-one-dec", nf, nil, "one increment and one decrement site (%d/%d)", nInc, nDec)
+			c.Check(nInc == 1 && nDec == 1, "outgoingNotifications:one-inc-one-dec", nf, nil, "one increment and one decrement site (%d/%d)", nInc, nDec)
 		}
 	reading:
 		// reading
@@ -1114,6 +1114,8 @@ func (c *Ctx) goroutineRules(rels []string) {
 				key := f.Name() + ":" + desc
 				if why, ok := bareChanOps[key]; ok && why != "?" {
 					c.Ok("bare:"+key, f, op, "classified: %s", why)
+				} else if chanOfOp(op) != nil && isLocalSemaphore(f, chanOfOp(op)) {
+					c.Ok("bare:"+key, f, op, "a slot of a local counting semaphore (buffered channel made in this function; every goroutine that takes a slot gives it back in a deferred receive): it blocks only while that many goroutines of this very call are running")
 				} else {
 					c.Fail("bare:"+key, f, op, "a blocking channel operation outside any select that is not in the classified table: an unconditional blocking point that Close does not release keeps its goroutine (and whoever waits for it) forever")
 				}
@@ -1494,4 +1496,64 @@ func (c *Ctx) pairedByEarlyReturn(nf *Func, incSite *uifSite, incStmt ast.Node, 
 		}
 	}
 	return false, "(no captured error separates the incrementing outcome from the refusing one on every path)"
+}
+
+// chanOfOp: the channel expression of a send or receive statement.
+func chanOfOp(op ast.Node) ast.Expr {
+	switch s := op.(type) {
+	case *ast.SendStmt:
+		return s.Chan
+	case *ast.ExprStmt:
+		if u, ok := ast.Unparen(s.X).(*ast.UnaryExpr); ok && u.Op == token.ARROW {
+			return u.X
+		}
+	case *ast.AssignStmt:
+		if len(s.Rhs) == 1 {
+			if u, ok := ast.Unparen(s.Rhs[0]).(*ast.UnaryExpr); ok && u.Op == token.ARROW {
+				return u.X
+			}
+		}
+	}
+	return nil
+}
+
+// isLocalSemaphore: ch is a local of the enclosing declared function, defined once as make(chan T, n) with a capacity, and
+// a receive from it sits in a defer (directly or in a deferred literal) somewhere in that function.
+func isLocalSemaphore(f *Func, ch ast.Expr) bool {
+	v, ok := f.ObjOf(ch).(*types.Var)
+	if !ok || v.IsField() {
+		return false
+	}
+	root := f.Root()
+	def := root.valueOf(&ast.Ident{Name: v.Name()})
+	_ = def
+	buffered := false
+	n := 0
+	for _, w := range Writes(root.Body, true) {
+		if root.ObjOf(w.LHS) != types.Object(v) {
+			continue
+		}
+		n++
+		if ce, isC := ast.Unparen(w.RHS).(*ast.CallExpr); w.RHS != nil && isC && root.BuiltinName(ce) == "make" && len(ce.Args) == 2 {
+			buffered = true
+		}
+	}
+	if n != 1 || !buffered {
+		return false
+	}
+	released := false
+	ast.Inspect(root.Body, func(x ast.Node) bool {
+		d, isD := x.(*ast.DeferStmt)
+		if !isD {
+			return true
+		}
+		ast.Inspect(d, func(y ast.Node) bool {
+			if u, isU := y.(*ast.UnaryExpr); isU && u.Op == token.ARROW && root.ObjOf(u.X) == types.Object(v) {
+				released = true
+			}
+			return true
+		})
+		return true
+	})
+	return released
 }
